@@ -167,9 +167,13 @@ impl<'a> StmtIterator<'a> {
                     self.inner_state = StmtIteratorState::EndIterateInner(loop_state.take())
                 }
                 StmtIteratorState::StartLoop(loop_state) => {
-                    ctx.push_frame();
-                    ctx.set(loop_state.variable, 0);
-                    self.inner_state = StmtIteratorState::StartIterateInner(loop_state.take());
+                    if loop_state.max > 0 {
+                        ctx.push_frame();
+                        ctx.set(loop_state.variable, 0);
+                        self.inner_state = StmtIteratorState::StartIterateInner(loop_state.take());
+                    } else {
+                        self.inner_state = StmtIteratorState::Iterate;
+                    }
                 }
                 StmtIteratorState::StartIterateInner(loop_state) => {
                     let loop_state = loop_state.take();
